@@ -1,2 +1,990 @@
-use vh_common::Args;
-pub fn run(_args: &Args) { unimplemented!() }
+//! C25 — the topic handshake hands the initiator's topic to the acceptor, or fails cleanly.
+//!
+//! Two arrangements, both driving the real `TopicHandshakeInitiator::run` /
+//! `TopicHandshakeAcceptor::run` by manual polling (no runtime: nothing in the transport ever
+//! blocks, so a `Pending` that nobody will wake is a hang, decided on state):
+//!
+//! * **solo** — one real role against a scripted peer: the well-formed incoming transcript, every
+//!   truncation of it, every substitution by the other message kind, a decode error and a
+//!   duplication at every position, a sink failing at each of its `poll_ready` / `start_send` /
+//!   `poll_flush` calls (one-off and broken-connection), a closed event channel.
+//! * **duo** — both real roles connected by a CBOR-framed in-memory connection owned by the
+//!   harness which cuts the connection at, replaces, duplicates or garbles message k (k = 0,1,2 of
+//!   the 3-message transcript); when one role returns the connection is torn down, as a transport
+//!   would do. Both polling orders.
+//!
+//! Oracle (from the statement): clean ⇒ both `Ok` and acceptor output == initiator topic; a role
+//! that *consumed* a deviation (wrong kind, undecodable frame, closed stream before its part of
+//! the transcript was complete) or was handed a sink error ⇒ that role returns `Err`; an acceptor
+//! that returns `Ok(t)` always has t == the topic the initiator sent; no role is `Pending` once
+//! nothing can wake it any more. A role that never sees the fault (e.g. a trailing duplicate it
+//! does not read) may return `Ok`. Error variants and emitted events are recorded, not judged.
+
+use std::collections::{BTreeMap, VecDeque};
+use std::fmt::Debug;
+use std::future::Future;
+use std::panic::{AssertUnwindSafe, catch_unwind};
+use std::pin::Pin;
+use std::sync::atomic::{AtomicUsize, Ordering};
+use std::sync::{Arc, Mutex};
+use std::task::{Context, Poll, Wake, Waker};
+
+use futures_channel::mpsc;
+use futures_util::{Sink, Stream};
+use p2panda_core::Topic;
+use p2panda_core::cbor::{decode_cbor, encode_cbor};
+use p2panda_sync::protocols::{
+    TopicHandshakeAcceptor, TopicHandshakeEvent, TopicHandshakeInitiator, TopicHandshakeMessage,
+};
+use p2panda_sync::traits::Protocol;
+use serde::de::DeserializeOwned;
+use serde::{Deserialize, Serialize};
+use vh_common::{Args, Report, Rng, Value, hash_of, json};
+
+use crate::io::{FaultSink, Item, ScriptStream, SinkFault, SinkOp};
+
+// ------------------------------------------------------------------------------------------
+// Topic types
+// ------------------------------------------------------------------------------------------
+
+trait TopicGen:
+    Clone + Debug + PartialEq + Serialize + DeserializeOwned + Send + Sync + 'static
+{
+    const NAME: &'static str;
+    fn generate(rng: &mut Rng) -> Self;
+    fn digest(&self) -> u64 {
+        hash_of(&format!("{self:?}"))
+    }
+}
+
+/// An application-defined topic with awkward values (empty / long / non-ASCII strings, byte
+/// blobs, nested options).
+#[derive(Clone, Debug, PartialEq, Serialize, Deserialize)]
+struct RichTopic {
+    id: u64,
+    name: String,
+    blob: Vec<u8>,
+    flag: Option<bool>,
+    path: Vec<String>,
+}
+
+impl TopicGen for RichTopic {
+    const NAME: &'static str = "RichTopic";
+    fn generate(rng: &mut Rng) -> Self {
+        let name = match rng.below(5) {
+            0 => String::new(),
+            1 => "Done".to_string(),
+            2 => "Topic".to_string(),
+            3 => "ünïcödé-🐼-話題".repeat(rng.usize_below(4) + 1),
+            _ => {
+                let n = rng.mag(10) as usize;
+                rng.bytes(n).iter().map(|b| (b'a' + b % 26) as char).collect()
+            }
+        };
+        let blob_len = rng.mag(13) as usize;
+        RichTopic {
+            id: match rng.below(4) {
+                0 => 0,
+                1 => u64::MAX,
+                _ => rng.next_u64(),
+            },
+            name,
+            blob: rng.bytes(blob_len),
+            flag: match rng.below(3) {
+                0 => None,
+                1 => Some(false),
+                _ => Some(true),
+            },
+            path: (0..rng.usize_below(4))
+                .map(|i| format!("seg{i}-{}", rng.below(1000)))
+                .collect(),
+        }
+    }
+}
+
+impl TopicGen for Topic {
+    const NAME: &'static str = "p2panda_core::Topic";
+    fn generate(rng: &mut Rng) -> Self {
+        match rng.below(8) {
+            0 => Topic::from([0u8; 32]),
+            1 => Topic::from([0xffu8; 32]),
+            _ => Topic::from(rng.array32()),
+        }
+    }
+}
+
+/// The smallest possible topic type.
+impl TopicGen for u8 {
+    const NAME: &'static str = "u8";
+    fn generate(rng: &mut Rng) -> Self {
+        rng.next_u64() as u8
+    }
+}
+
+type HMsg<T> = TopicHandshakeMessage<T>;
+type HEvt<T> = TopicHandshakeEvent<T>;
+
+#[derive(Clone, Copy, Debug, PartialEq, Eq, Hash, Serialize)]
+enum Role {
+    Initiator,
+    Acceptor,
+}
+
+// ------------------------------------------------------------------------------------------
+// Manual polling
+// ------------------------------------------------------------------------------------------
+
+struct CountWake(AtomicUsize);
+
+impl Wake for CountWake {
+    fn wake(self: Arc<Self>) {
+        self.0.fetch_add(1, Ordering::SeqCst);
+    }
+    fn wake_by_ref(self: &Arc<Self>) {
+        self.0.fetch_add(1, Ordering::SeqCst);
+    }
+}
+
+#[derive(Debug, Clone, Serialize)]
+enum End<T> {
+    /// `Ok`; `Some(topic)` for the acceptor.
+    Ok(Option<T>),
+    Err(String),
+    Panic(String),
+    /// Pending and no wake-up outstanding: nothing can make it progress any more.
+    Hung,
+}
+
+impl<T> End<T> {
+    fn tag(&self) -> &'static str {
+        match self {
+            End::Ok(_) => "ok",
+            End::Err(_) => "err",
+            End::Panic(_) => "panic",
+            End::Hung => "hung",
+        }
+    }
+}
+
+type RoleFut<T> = Pin<Box<dyn Future<Output = Result<Option<T>, String>>>>;
+
+fn poll_once<T>(fut: &mut RoleFut<T>, cx: &mut Context<'_>) -> Poll<End<T>> {
+    match catch_unwind(AssertUnwindSafe(|| fut.as_mut().poll(cx))) {
+        Ok(Poll::Ready(Ok(t))) => Poll::Ready(End::Ok(t)),
+        Ok(Poll::Ready(Err(e))) => Poll::Ready(End::Err(e)),
+        Ok(Poll::Pending) => Poll::Pending,
+        Err(p) => {
+            let text = p
+                .downcast_ref::<String>()
+                .cloned()
+                .or_else(|| p.downcast_ref::<&str>().map(|s| s.to_string()))
+                .unwrap_or_else(|| "non-string panic".into());
+            Poll::Ready(End::Panic(text))
+        }
+    }
+}
+
+fn role_future<T, Si, St, SiE, StE>(
+    role: Role,
+    topic: T,
+    event_tx: mpsc::Sender<HEvt<T>>,
+    sink: Si,
+    stream: St,
+) -> RoleFut<T>
+where
+    T: TopicGen,
+    Si: Sink<HMsg<T>, Error = SiE> + Unpin + 'static,
+    St: Stream<Item = Result<HMsg<T>, StE>> + Unpin + 'static,
+    SiE: Debug + 'static,
+    StE: Debug + 'static,
+{
+    match role {
+        Role::Initiator => Box::pin(async move {
+            let mut sink = sink;
+            let mut stream = stream;
+            TopicHandshakeInitiator::<T, HEvt<T>>::new(topic, event_tx)
+                .run(&mut sink, &mut stream)
+                .await
+                .map(|()| None)
+                .map_err(|e| variant_of(&format!("{e:?}")))
+        }),
+        Role::Acceptor => Box::pin(async move {
+            let mut sink = sink;
+            let mut stream = stream;
+            TopicHandshakeAcceptor::<T, HEvt<T>>::new(event_tx)
+                .run(&mut sink, &mut stream)
+                .await
+                .map(Some)
+                .map_err(|e| variant_of(&format!("{e:?}")))
+        }),
+    }
+}
+
+/// Keep only the error variant name (topics can be kilobytes long).
+fn variant_of(debug: &str) -> String {
+    debug
+        .split(|c: char| c == '(' || c == ' ' || c == '{')
+        .next()
+        .unwrap_or("")
+        .to_string()
+}
+
+// ------------------------------------------------------------------------------------------
+// Solo: one real role against a scripted peer
+// ------------------------------------------------------------------------------------------
+
+#[derive(Clone, Copy, Debug, PartialEq, Eq, Hash, Serialize)]
+enum SFault {
+    Clean,
+    Truncate(usize),
+    SubstKind(usize),
+    DecodeErr(usize),
+    Dup(usize),
+}
+
+#[derive(Clone, Copy, Debug, PartialEq, Eq, Hash, Serialize)]
+struct SoloCase {
+    role: Role,
+    stream: SFault,
+    sink: Option<SinkFault>,
+    evt_closed: bool,
+}
+
+fn kind<T>(m: &HMsg<T>) -> &'static str {
+    match m {
+        HMsg::Topic(_) => "Topic",
+        HMsg::Done => "Done",
+    }
+}
+
+struct SoloOut<T> {
+    end: End<T>,
+    polls: usize,
+    consumed: usize,
+    saw_close: bool,
+    sink_failures: Vec<(SinkOp, usize)>,
+    sink_counts: [usize; 3],
+    sent: Vec<&'static str>,
+    delivered: Vec<&'static str>,
+    events: usize,
+}
+
+fn solo_incoming<T: TopicGen>(role: Role, topic: &T, other: &T, f: SFault) -> Vec<Item<HMsg<T>>> {
+    let honest: Vec<HMsg<T>> = match role {
+        Role::Acceptor => vec![HMsg::Topic(topic.clone()), HMsg::Done],
+        Role::Initiator => vec![HMsg::Done],
+    };
+    let mut items: Vec<Item<HMsg<T>>> = honest.into_iter().map(Item::Msg).collect();
+    match f {
+        SFault::Clean => {}
+        SFault::Truncate(p) => items.truncate(p),
+        SFault::SubstKind(i) => {
+            items[i] = match &items[i] {
+                Item::Msg(HMsg::Topic(_)) => Item::Msg(HMsg::Done),
+                _ => Item::Msg(HMsg::Topic(other.clone())),
+            }
+        }
+        SFault::DecodeErr(i) => items[i] = Item::DecodeErr,
+        SFault::Dup(i) => {
+            let c = items[i].clone();
+            items.insert(i + 1, c);
+        }
+    }
+    items
+}
+
+fn run_solo<T: TopicGen>(topic: &T, other: &T, case: SoloCase) -> SoloOut<T> {
+    let items = solo_incoming(case.role, topic, other, case.stream);
+    let delivered: Vec<&'static str> = items
+        .iter()
+        .map(|i| match i {
+            Item::Msg(m) => kind(m),
+            Item::DecodeErr => "DecodeErr",
+        })
+        .collect();
+    let stream = ScriptStream::new(items);
+    let sstat = stream.stat.clone();
+    let sink = FaultSink::<HMsg<T>>::new(case.sink);
+    let kstat = sink.stat.clone();
+    let (event_tx, mut event_rx) = mpsc::channel::<HEvt<T>>(64);
+    if case.evt_closed {
+        event_rx.close();
+    }
+
+    let mut fut = role_future(case.role, topic.clone(), event_tx, sink, stream);
+    let wake = Arc::new(CountWake(AtomicUsize::new(0)));
+    let waker = Waker::from(wake.clone());
+    let mut cx = Context::from_waker(&waker);
+    let mut polls = 0;
+    let end = loop {
+        let before = wake.0.load(Ordering::SeqCst);
+        polls += 1;
+        match poll_once(&mut fut, &mut cx) {
+            Poll::Ready(e) => break e,
+            Poll::Pending => {
+                if wake.0.load(Ordering::SeqCst) == before || polls > 10_000 {
+                    break End::Hung;
+                }
+            }
+        }
+    };
+    drop(fut);
+
+    let mut events = 0;
+    while event_rx.try_recv().is_ok() {
+        events += 1;
+    }
+    let s = sstat.lock().unwrap().clone();
+    let k = kstat.lock().unwrap();
+    SoloOut {
+        end,
+        polls,
+        consumed: s.yielded,
+        saw_close: s.ended,
+        sink_failures: k.failed_at.clone(),
+        sink_counts: [k.ready, k.start_send, k.flush],
+        sent: k.sent.iter().map(kind).collect(),
+        delivered,
+        events,
+    }
+}
+
+struct Verdict {
+    nontrivial: bool,
+    violations: Vec<(String, String)>,
+}
+
+fn judge_solo<T: TopicGen>(topic: &T, case: SoloCase, out: &SoloOut<T>) -> Verdict {
+    let honest_len = match case.role {
+        Role::Acceptor => 2,
+        Role::Initiator => 1,
+    };
+    // Did the role consume a deviation?
+    let stream_dev = match case.stream {
+        SFault::Clean => false,
+        SFault::Truncate(p) => p < honest_len && out.saw_close && out.consumed == p,
+        SFault::SubstKind(i) | SFault::DecodeErr(i) => out.consumed > i,
+        // the duplicate sits at i+1; it is a deviation only if that position is part of what the
+        // role reads
+        SFault::Dup(i) => i + 1 < honest_len && out.consumed > i + 1,
+    };
+    let sink_dev = !out.sink_failures.is_empty();
+    let fault_injected = case.stream != SFault::Clean || case.sink.is_some() || case.evt_closed;
+    let r = format!("{:?}", case.role).to_lowercase();
+    let mut v = Vec::new();
+
+    match &out.end {
+        End::Hung => v.push((
+            format!("C25:{r}:pending-at-quiescence"),
+            format!(
+                "{:?} is Pending although every input it could wait for is exhausted/closed and \
+                 no wake-up is outstanding",
+                case.role
+            ),
+        )),
+        End::Panic(p) => v.push((
+            format!("C25:{r}:panic"),
+            format!("{:?} panicked instead of returning: {p}", case.role),
+        )),
+        End::Ok(o) => {
+            if let Some(t) = o {
+                if t != topic {
+                    v.push((
+                        "C25:acceptor:wrong-topic".into(),
+                        "acceptor returned Ok with a topic that is not the one sent to it".into(),
+                    ));
+                }
+            }
+            if stream_dev {
+                let class = match case.stream {
+                    SFault::Truncate(_) => "closed-stream",
+                    SFault::SubstKind(_) => "wrong-message-kind",
+                    SFault::DecodeErr(_) => "decode-error",
+                    SFault::Dup(_) => "duplicated-message",
+                    SFault::Clean => unreachable!(),
+                };
+                v.push((
+                    format!("C25:{r}:ok-despite-{class}"),
+                    format!(
+                        "{:?} returned Ok although it consumed a deviating transcript ({:?})",
+                        case.role, case.stream
+                    ),
+                ));
+            } else if sink_dev {
+                v.push((
+                    format!("C25:{r}:ok-despite-sink-error"),
+                    format!(
+                        "{:?} returned Ok although its sink reported an error ({:?})",
+                        case.role, out.sink_failures
+                    ),
+                ));
+            }
+        }
+        End::Err(e) => {
+            // "both complete": a role that saw nothing but the well-formed transcript and a
+            // working sink (clean run, or a fault placed where the role never gets to) returns Ok.
+            if !(stream_dev || sink_dev || case.evt_closed) {
+                v.push((
+                    format!("C25:{r}:err-on-wellformed-run"),
+                    format!(
+                        "{:?} returned Err({e}) although everything it consumed was well-formed \
+                         and its sink never failed",
+                        case.role
+                    ),
+                ));
+            }
+        }
+    }
+    // non-trivial: clean run, or the injected fault was reached
+    let nontrivial = !fault_injected || stream_dev || sink_dev || case.evt_closed;
+    Verdict {
+        nontrivial,
+        violations: v,
+    }
+}
+
+// ------------------------------------------------------------------------------------------
+// Duo: both real roles over a harness-owned connection
+// ------------------------------------------------------------------------------------------
+
+#[derive(Default)]
+struct PipeState {
+    q: VecDeque<Vec<u8>>,
+    closed: bool,
+    waker: Option<Waker>,
+}
+
+#[derive(Clone, Default)]
+struct Pipe(Arc<Mutex<PipeState>>);
+
+impl Pipe {
+    fn close(&self) {
+        let mut s = self.0.lock().unwrap();
+        s.closed = true;
+        if let Some(w) = s.waker.take() {
+            w.wake();
+        }
+    }
+    fn push(&self, frame: Vec<u8>) {
+        let mut s = self.0.lock().unwrap();
+        s.q.push_back(frame);
+        if let Some(w) = s.waker.take() {
+            w.wake();
+        }
+    }
+}
+
+#[derive(Clone, Copy, Debug, PartialEq, Eq, Hash, Serialize)]
+enum DFault {
+    /// The connection is cut instead of delivering the message.
+    Cut,
+    /// The message is replaced by one of the other kind.
+    SubstKind,
+    Dup,
+    /// The frame is replaced by bytes that do not decode.
+    Garbage,
+}
+
+struct PipeSink<T> {
+    fwd: Pipe,
+    rev: Pipe,
+    /// (index of the message in this direction, fault, replacement topic)
+    fault: Option<(usize, DFault)>,
+    other: T,
+    count: usize,
+    log: Arc<Mutex<Vec<String>>>,
+    name: &'static str,
+}
+
+#[derive(Debug)]
+#[allow(dead_code)]
+struct ConnClosed;
+
+impl<T> Unpin for PipeSink<T> {}
+
+impl<T: TopicGen> Sink<HMsg<T>> for PipeSink<T> {
+    type Error = ConnClosed;
+
+    fn poll_ready(self: Pin<&mut Self>, _: &mut Context<'_>) -> Poll<Result<(), ConnClosed>> {
+        if self.fwd.0.lock().unwrap().closed {
+            return Poll::Ready(Err(ConnClosed));
+        }
+        Poll::Ready(Ok(()))
+    }
+
+    fn start_send(mut self: Pin<&mut Self>, item: HMsg<T>) -> Result<(), ConnClosed> {
+        if self.fwd.0.lock().unwrap().closed {
+            return Err(ConnClosed);
+        }
+        let n = self.count;
+        self.count += 1;
+        let fault = match self.fault {
+            Some((i, f)) if i == n => Some(f),
+            _ => None,
+        };
+        let frame = encode_cbor(&item).expect("encode");
+        self.log
+            .lock()
+            .unwrap()
+            .push(format!("{}#{n}:{}{}", self.name, kind(&item), match fault {
+                Some(f) => format!("!{f:?}"),
+                None => String::new(),
+            }));
+        match fault {
+            None => self.fwd.push(frame),
+            Some(DFault::Cut) => {
+                self.fwd.close();
+                self.rev.close();
+            }
+            Some(DFault::SubstKind) => {
+                let repl: HMsg<T> = match item {
+                    HMsg::Topic(_) => HMsg::Done,
+                    HMsg::Done => HMsg::Topic(self.other.clone()),
+                };
+                self.fwd.push(encode_cbor(&repl).expect("encode"));
+            }
+            Some(DFault::Dup) => {
+                self.fwd.push(frame.clone());
+                self.fwd.push(frame);
+            }
+            Some(DFault::Garbage) => self.fwd.push(vec![0xff]),
+        }
+        Ok(())
+    }
+
+    fn poll_flush(self: Pin<&mut Self>, _: &mut Context<'_>) -> Poll<Result<(), ConnClosed>> {
+        Poll::Ready(Ok(()))
+    }
+
+    fn poll_close(self: Pin<&mut Self>, _: &mut Context<'_>) -> Poll<Result<(), ConnClosed>> {
+        self.fwd.close();
+        Poll::Ready(Ok(()))
+    }
+}
+
+struct PipeStream<T> {
+    pipe: Pipe,
+    consumed: Arc<AtomicUsize>,
+    _t: std::marker::PhantomData<T>,
+}
+
+impl<T> Unpin for PipeStream<T> {}
+
+impl<T: TopicGen> Stream for PipeStream<T> {
+    type Item = Result<HMsg<T>, String>;
+
+    fn poll_next(self: Pin<&mut Self>, cx: &mut Context<'_>) -> Poll<Option<Self::Item>> {
+        let mut s = self.pipe.0.lock().unwrap();
+        if let Some(frame) = s.q.pop_front() {
+            self.consumed.fetch_add(1, Ordering::SeqCst);
+            return Poll::Ready(Some(
+                decode_cbor::<HMsg<T>, _>(&frame[..]).map_err(|e| format!("{e:?}")),
+            ));
+        }
+        if s.closed {
+            return Poll::Ready(None);
+        }
+        s.waker = Some(cx.waker().clone());
+        Poll::Pending
+    }
+}
+
+#[derive(Clone, Copy, Debug, PartialEq, Eq, Hash, Serialize)]
+struct DuoCase {
+    /// (global message index 0..3, fault)
+    fault: Option<(usize, DFault)>,
+    acceptor_first: bool,
+}
+
+struct DuoOut<T> {
+    init: End<T>,
+    acc: End<T>,
+    wire: Vec<String>,
+    consumed_by_init: usize,
+    consumed_by_acc: usize,
+    rounds: usize,
+}
+
+fn run_duo<T: TopicGen>(topic: &T, other: &T, case: DuoCase) -> DuoOut<T> {
+    let i2a = Pipe::default();
+    let a2i = Pipe::default();
+    let log = Arc::new(Mutex::new(Vec::new()));
+    // global index -> (direction, index within direction)
+    let (fi, fa) = match case.fault {
+        Some((0, f)) => (Some((0, f)), None),
+        Some((1, f)) => (None, Some((0, f))),
+        Some((2, f)) => (Some((1, f)), None),
+        _ => (None, None),
+    };
+    let ci = Arc::new(AtomicUsize::new(0));
+    let ca = Arc::new(AtomicUsize::new(0));
+    let init_sink = PipeSink {
+        fwd: i2a.clone(),
+        rev: a2i.clone(),
+        fault: fi,
+        other: other.clone(),
+        count: 0,
+        log: log.clone(),
+        name: "I>A",
+    };
+    let acc_sink = PipeSink {
+        fwd: a2i.clone(),
+        rev: i2a.clone(),
+        fault: fa,
+        other: other.clone(),
+        count: 0,
+        log: log.clone(),
+        name: "A>I",
+    };
+    let init_stream = PipeStream::<T> {
+        pipe: a2i.clone(),
+        consumed: ci.clone(),
+        _t: Default::default(),
+    };
+    let acc_stream = PipeStream::<T> {
+        pipe: i2a.clone(),
+        consumed: ca.clone(),
+        _t: Default::default(),
+    };
+    let (ie_tx, _ie_rx) = mpsc::channel::<HEvt<T>>(64);
+    let (ae_tx, _ae_rx) = mpsc::channel::<HEvt<T>>(64);
+    let mut futs: [Option<RoleFut<T>>; 2] = [
+        Some(role_future(Role::Initiator, topic.clone(), ie_tx, init_sink, init_stream)),
+        Some(role_future(Role::Acceptor, topic.clone(), ae_tx, acc_sink, acc_stream)),
+    ];
+    let mut ends: [Option<End<T>>; 2] = [None, None];
+    let order: [usize; 2] = if case.acceptor_first { [1, 0] } else { [0, 1] };
+
+    let wake = Arc::new(CountWake(AtomicUsize::new(0)));
+    let waker = Waker::from(wake.clone());
+    let mut cx = Context::from_waker(&waker);
+    let mut rounds = 0;
+    loop {
+        rounds += 1;
+        let before = wake.0.load(Ordering::SeqCst);
+        let mut finished_one = false;
+        for &w in &order {
+            if let Some(f) = futs[w].as_mut() {
+                if let Poll::Ready(e) = poll_once(f, &mut cx) {
+                    ends[w] = Some(e);
+                    futs[w] = None;
+                    finished_one = true;
+                    // The finished side's transport goes away: both directions close; frames that
+                    // were already written are still delivered first.
+                    i2a.close();
+                    a2i.close();
+                }
+            }
+        }
+        if futs.iter().all(|f| f.is_none()) {
+            break;
+        }
+        if !finished_one && wake.0.load(Ordering::SeqCst) == before {
+            break; // nobody can progress any more
+        }
+        if rounds > 1_000 {
+            break;
+        }
+    }
+    let [e0, e1] = ends;
+    DuoOut {
+        init: e0.unwrap_or(End::Hung),
+        acc: e1.unwrap_or(End::Hung),
+        wire: log.lock().unwrap().clone(),
+        consumed_by_init: ci.load(Ordering::SeqCst),
+        consumed_by_acc: ca.load(Ordering::SeqCst),
+        rounds,
+    }
+}
+
+fn judge_duo<T: TopicGen>(topic: &T, case: DuoCase, out: &DuoOut<T>) -> Verdict {
+    let mut v = Vec::new();
+    for (role, end) in [(Role::Initiator, &out.init), (Role::Acceptor, &out.acc)] {
+        let r = format!("{role:?}").to_lowercase();
+        match end {
+            End::Hung => v.push((
+                format!("C25:{r}:pending-at-quiescence"),
+                format!(
+                    "{role:?} is still Pending although the connection is closed/idle and no \
+                     wake-up is outstanding"
+                ),
+            )),
+            End::Panic(p) => v.push((format!("C25:{r}:panic"), format!("{role:?} panicked: {p}"))),
+            _ => {}
+        }
+    }
+    if let End::Ok(Some(t)) = &out.acc {
+        if t != topic {
+            v.push((
+                "C25:acceptor:wrong-topic".into(),
+                "acceptor returned Ok with a topic different from the initiator's".into(),
+            ));
+        }
+    }
+    let mut nontrivial = true;
+    match case.fault {
+        None => {
+            if !matches!(out.init, End::Ok(None)) || !matches!(out.acc, End::Ok(Some(_))) {
+                v.push((
+                    "C25:duo:clean-run-did-not-complete".into(),
+                    format!(
+                        "fault-free handshake: initiator {} / acceptor {}",
+                        out.init.tag(),
+                        out.acc.tag()
+                    ),
+                ));
+            }
+        }
+        Some((k, f)) => {
+            // receiver of message k and the number of frames it must have consumed to see it
+            let (affected, end, consumed, need) = match k {
+                0 => (Role::Acceptor, &out.acc, out.consumed_by_acc, 1),
+                1 => (Role::Initiator, &out.init, out.consumed_by_init, 1),
+                _ => (Role::Acceptor, &out.acc, out.consumed_by_acc, 2),
+            };
+            // A duplicate is visible only where the receiver reads one more message afterwards.
+            let visible = match f {
+                DFault::Cut => true,
+                DFault::SubstKind | DFault::Garbage => consumed >= need,
+                DFault::Dup => k == 0 && consumed >= 2,
+            };
+            nontrivial = visible;
+            if visible && matches!(end, End::Ok(_)) {
+                let r = format!("{affected:?}").to_lowercase();
+                let class = match f {
+                    DFault::Cut => "closed-stream",
+                    DFault::SubstKind => "wrong-message-kind",
+                    DFault::Dup => "duplicated-message",
+                    DFault::Garbage => "decode-error",
+                };
+                v.push((
+                    format!("C25:{r}:ok-despite-{class}"),
+                    format!("{affected:?} returned Ok although message {k} reached it as {f:?}"),
+                ));
+            }
+        }
+    }
+    Verdict {
+        nontrivial,
+        violations: v,
+    }
+}
+
+// ------------------------------------------------------------------------------------------
+// Enumeration
+// ------------------------------------------------------------------------------------------
+
+fn solo_cases(role: Role) -> Vec<SoloCase> {
+    let len = match role {
+        Role::Acceptor => 2,
+        Role::Initiator => 1,
+    };
+    // sink calls of the clean run: acceptor send(Done)+flush; initiator send(Topic), send(Done),
+    // flush. One more than the clean count is included (never reached = trivial).
+    let (ready, start, flush) = match role {
+        Role::Acceptor => (1, 1, 2),
+        Role::Initiator => (2, 2, 3),
+    };
+    let base = SoloCase {
+        role,
+        stream: SFault::Clean,
+        sink: None,
+        evt_closed: false,
+    };
+    let mut v = vec![base];
+    for p in 0..len {
+        v.push(SoloCase {
+            stream: SFault::Truncate(p),
+            ..base
+        });
+    }
+    for i in 0..len {
+        for s in [SFault::SubstKind(i), SFault::DecodeErr(i), SFault::Dup(i)] {
+            v.push(SoloCase { stream: s, ..base });
+        }
+    }
+    for (op, c) in [
+        (SinkOp::Ready, ready),
+        (SinkOp::StartSend, start),
+        (SinkOp::Flush, flush),
+    ] {
+        for nth in 1..=c + 1 {
+            for sticky in [false, true] {
+                v.push(SoloCase {
+                    sink: Some(SinkFault { op, nth, sticky }),
+                    ..base
+                });
+            }
+        }
+    }
+    v.push(SoloCase {
+        evt_closed: true,
+        ..base
+    });
+    v
+}
+
+fn duo_cases() -> Vec<DuoCase> {
+    let mut v = Vec::new();
+    for acceptor_first in [false, true] {
+        v.push(DuoCase {
+            fault: None,
+            acceptor_first,
+        });
+        for k in 0..3 {
+            for f in [DFault::Cut, DFault::SubstKind, DFault::Dup, DFault::Garbage] {
+                v.push(DuoCase {
+                    fault: Some((k, f)),
+                    acceptor_first,
+                });
+            }
+        }
+    }
+    v
+}
+
+struct Tally {
+    ends: BTreeMap<String, u64>,
+    err_variants: BTreeMap<String, u64>,
+    polls: u64,
+    events: u64,
+}
+
+fn run_type<T: TopicGen>(args: &Args, rep: &mut Report, tally: &mut Tally, topics: u64, salt: u64) {
+    let solo: Vec<SoloCase> = [Role::Initiator, Role::Acceptor]
+        .into_iter()
+        .flat_map(solo_cases)
+        .collect();
+    let duo = duo_cases();
+    for n in 0..topics {
+        let mut rng = Rng::fork(args.seed ^ salt, n);
+        let topic = T::generate(&mut rng);
+        let mut other = T::generate(&mut rng);
+        let mut guard = 0;
+        while other == topic && guard < 100 {
+            other = T::generate(&mut rng);
+            guard += 1;
+        }
+        let td = topic.digest();
+        for &case in &solo {
+            let out = run_solo(&topic, &other, case);
+            let verdict = judge_solo(&topic, case, &out);
+            rep.case(verdict.nontrivial.then_some((T::NAME, td, "solo", hash_of(&case))));
+            *tally
+                .ends
+                .entry(format!("solo:{:?}:{}", case.role, out.end.tag()))
+                .or_insert(0) += 1;
+            if let End::Err(e) = &out.end {
+                *tally.err_variants.entry(e.clone()).or_insert(0) += 1;
+            }
+            tally.polls += out.polls as u64;
+            tally.events += out.events as u64;
+            let witness = || {
+                json!({
+                    "seed": args.seed, "topic_type": T::NAME, "topic_no": n,
+                    "topic_debug": truncate(&format!("{topic:?}")),
+                    "arrangement": "solo", "case": case,
+                    "delivered_to_role": out.delivered, "consumed": out.consumed,
+                    "saw_stream_close": out.saw_close, "sent_by_role": out.sent,
+                    "sink_calls_ready_send_flush": out.sink_counts,
+                    "sink_failures_returned": out.sink_failures,
+                    "result": out.end.tag(),
+                    "result_detail": truncate(&format!("{:?}", out.end)),
+                    "polls": out.polls,
+                })
+            };
+            if rep.want_sample() && n == 0 && verdict.nontrivial
+                && matches!(case.stream, SFault::SubstKind(0) | SFault::Truncate(1))
+            {
+                rep.sample(witness());
+            }
+            for (sig, what) in verdict.violations {
+                rep.violation(&sig, what, witness());
+            }
+        }
+        for &case in &duo {
+            let out = run_duo(&topic, &other, case);
+            let verdict = judge_duo(&topic, case, &out);
+            rep.case(verdict.nontrivial.then_some((T::NAME, td, "duo", hash_of(&case))));
+            *tally
+                .ends
+                .entry(format!("duo:init:{}", out.init.tag()))
+                .or_insert(0) += 1;
+            *tally
+                .ends
+                .entry(format!("duo:acc:{}", out.acc.tag()))
+                .or_insert(0) += 1;
+            for e in [&out.init, &out.acc] {
+                if let End::Err(e) = e {
+                    *tally.err_variants.entry(e.clone()).or_insert(0) += 1;
+                }
+            }
+            let witness = || {
+                json!({
+                    "seed": args.seed, "topic_type": T::NAME, "topic_no": n,
+                    "topic_debug": truncate(&format!("{topic:?}")),
+                    "arrangement": "duo", "case": case, "wire": out.wire,
+                    "initiator": truncate(&format!("{:?}", out.init)),
+                    "acceptor": truncate(&format!("{:?}", out.acc)),
+                    "frames_consumed_by_initiator": out.consumed_by_init,
+                    "frames_consumed_by_acceptor": out.consumed_by_acc,
+                    "rounds": out.rounds,
+                })
+            };
+            if rep.want_sample() && n == 0
+                && matches!(case.fault, None | Some((2, DFault::Cut)))
+                && !case.acceptor_first
+            {
+                rep.sample(witness());
+            }
+            for (sig, what) in verdict.violations {
+                rep.violation(&sig, what, witness());
+            }
+        }
+    }
+}
+
+fn truncate(s: &str) -> String {
+    if s.len() > 300 {
+        let mut end = 300;
+        while !s.is_char_boundary(end) {
+            end -= 1;
+        }
+        format!("{}… ({} bytes)", &s[..end], s.len())
+    } else {
+        s.to_string()
+    }
+}
+
+pub fn run(args: &Args) {
+    let rule = "case = (topic value, arrangement solo/duo, role, fault): for every generated \
+                topic, the clean run and every truncation / kind substitution / decode error / \
+                duplication at every transcript position, every n-th failing sink call (one-off \
+                and broken), closed event channel, against each role alone; and both real roles \
+                over a CBOR-framed connection with message k cut/replaced/duplicated/garbled, \
+                both polling orders; non-trivial = clean run or the fault was consumed by the \
+                role; distinct = distinct (topic, case)";
+    let mut rep = Report::new(args, rule, 10_000);
+    let per_topic = (solo_cases(Role::Initiator).len() + solo_cases(Role::Acceptor).len()
+        + duo_cases().len()) as u64;
+    let total_cases = args.n(60_000, 2_000_000);
+    let topics = (total_cases / per_topic).max(3);
+    let mut tally = Tally {
+        ends: BTreeMap::new(),
+        err_variants: BTreeMap::new(),
+        polls: 0,
+        events: 0,
+    };
+    // half of the topics are rich application topics, the rest p2panda topics and u8
+    run_type::<RichTopic>(args, &mut rep, &mut tally, topics / 2 + 1, 0x25a);
+    run_type::<Topic>(args, &mut rep, &mut tally, topics / 4 + 1, 0x25b);
+    run_type::<u8>(args, &mut rep, &mut tally, topics / 4 + 1, 0x25c);
+
+    rep.extra("cases_per_topic", json!(per_topic));
+    rep.extra("results_by_arrangement_and_role", json!(tally.ends));
+    rep.extra("error_variants_returned", json!(tally.err_variants));
+    rep.extra("polls_of_role_futures", json!(tally.polls));
+    rep.extra("handshake_events_observed", json!(tally.events));
+    let _: Value = json!(null);
+    rep.finish(args);
+}
